@@ -26,10 +26,22 @@ func c02Kind(kind int, tier int) {
 		return
 	}
 	s1 := q1.Statements[0]
+	switch s1.(type) {
+	case *CreateUserStatement, *SetPasswordUserStatement:
+		// the password is redacted on purpose, so the printed text is not meant to be parsed again
+		vfReach("C02_" + name + "/ok")
+		return
+	}
+	// an empty quoted name ("") used as a measurement is printed as nothing: recorded finding, kept apart
+	// so that any other printer defect is still reported
+	tag := ""
+	if g.emptyName {
+		tag = "[empty-quoted-name]"
+	}
 	printed := s1.String()
 	vfNote(printed)
 	q2, err := ParseQuery(printed)
-	vfAssert(err == nil, "C02/"+name+"/printed-text-is-accepted")
+	vfAssert(err == nil, "C02/"+name+"/printed-text-is-accepted"+tag)
 	if err != nil {
 		return
 	}
@@ -40,7 +52,7 @@ func c02Kind(kind int, tier int) {
 	s2 := q2.Statements[0]
 	c02Strip(s1)
 	c02Strip(s2)
-	vfAssert(vfDeepEqual(s1, s2), "C02/"+name+"/reparsed-ast-is-identical")
+	vfAssert(vfDeepEqual(s1, s2), "C02/"+name+"/reparsed-ast-is-identical"+tag)
 	vfReach("C02_" + name + "/ok")
 }
 
